@@ -7,6 +7,7 @@ import AquaDrv.ExecOp
 import AquaDrv.MiscOps
 import AquaDrv.C26Ops
 import AquaDrv.C24Ops
+import AquaDrv.C25Ops
 /-! Line-protocol driver of the model: one JSON request per line on stdin, one JSON answer per line. -/
 open Lean Aqua
 
@@ -23,6 +24,8 @@ def dispatch (j : Json) : Json :=
   | "json_float_queries" => opJsonFloatQueries j
   | "json_parse" => opJsonParse j
   | "lens" => C24.opLens j
+  | "cid" => opCid j
+  | "cid_verify" => opCidVerify j
   | "ping" => Json.mkObj [("pong", true)]
   | op => Json.mkObj [("error", s!"unknown op {op}")]
 
